@@ -627,6 +627,16 @@ func VerifyLinkSignatureThesholds(layout Layout,
 		// Store all good links for a step
 		stepsMetadataVerified[step.Name] = linksPerStepVerified
 
+		// A step without any good link fails, whatever its threshold says. A
+		// threshold of zero (or less) would otherwise let the step pass here,
+		// and the functions that process the links later on rely on one link
+		// per step at least.
+		if len(linksPerStepVerified) < 1 {
+			return nil, fmt.Errorf("step '%s' has no link metadata file with a"+
+				" valid signature from an authorized signer: %v", step.Name,
+				stepErr)
+		}
+
 		if len(linksPerStepVerified) < step.Threshold {
 			linksPerStep := stepsMetadata[step.Name]
 			return nil, fmt.Errorf("step '%s' requires '%d' link metadata file(s)."+
